@@ -33,6 +33,17 @@ func Safe(in []byte) string {
 	return SafeBlocks(blocks, refs)
 }
 
+// SafeSoft parses and renders in safe mode under the given soft-break behaviour.
+func SafeSoft(in []byte, soft cm.SoftBreakBehavior) string {
+	blocks, refs := cm.Parse(append([]byte(nil), in...))
+	r := &cm.HTMLRenderer{ReferenceMap: refs, IgnoreRaw: true, SoftBreakBehavior: soft}
+	var out []byte
+	for _, b := range blocks {
+		out = r.AppendBlock(out, b)
+	}
+	return string(out)
+}
+
 // LF maps CRLF and CR to LF.
 func LF(s string) string {
 	b := []byte(s)
